@@ -24,7 +24,7 @@ import (
 
 func TestMain(m *testing.M) { stats.Main(m, "C13") }
 
-const ruleW = "rapid: format tables of 0-3 entries from {json,text,custom,\"\"} with generated values (empty allowed) x configured Format {unset,json,text,custom,missing} x harness writer {ok, fails, short write with nil error, short write with error} x 1-16 concurrent Process calls, for writer.Sink and FileSink (temp dir, /dev/null, /dev/stdout, /dev/stderr, un-creatable directory); oracle = per-call byte log of the harness writer / file contents: success => exactly the configured format's bytes, once, never overlapping another write; missing format or failing/short writer => error; non-trivial = >=2 formats in the table with a non-default sink format, or >=4 concurrent writers; distinct = case descriptor"
+const ruleW = "rapid: format tables of 0-3 entries from {json,text,custom,\"\"} with generated values (empty allowed) x configured Format {unset,json,text,custom,missing} x harness writer {ok, fails, short write with nil error, short write with error} x 1-16 concurrent Process calls, for writer.Sink and FileSink (temp dir, /dev/null, /dev/stdout, /dev/stderr, un-creatable directory); oracle = byte stream received by the harness writer / file contents: success => exactly the configured format's bytes, once and contiguous (in however many Write calls), never overlapping another Process call's write; missing format or failing/short writer => error; non-trivial = >=2 formats in the table with a non-default sink format, or >=4 concurrent writers; distinct = case descriptor"
 const ruleC = "rapid: ChannelSink with capacity 0/1, pre-filled or not, a drainer receiving after never/0/5/60ms, timeout 1-40ms or 10s, context cancelled before/after 1-40ms/never or carrying its own deadline, or a detached context (parent deadline, never done), Process under a watchdog, plus constructor arguments; oracle = nil <=> the identical *Event pointer was received exactly once, error => never received, error not before min(timeout, cancel) and not later than it + 2s; non-trivial = timeout and context deadline both finite and different, or delivery racing a deadline; distinct = case descriptor"
 
 var formatNames = []string{eventlogger.JSONFormat, "text", "custom", ""}
@@ -164,14 +164,31 @@ func TestC13WriterSink(t *testing.T) {
 			}
 		}
 		if mode == 0 {
-			var got []string
+			// the byte stream the writer received (Write calls in arrival order; how many calls an event takes is
+			// the sink's business) must be the successful values, each exactly once and contiguous, in some order
+			var stream []byte
 			for _, b := range w.writes {
-				got = append(got, string(b))
+				stream = append(stream, b...)
 			}
-			sort.Strings(got)
-			sort.Strings(wantWrites)
-			if strings.Join(got, "\x00|") != strings.Join(wantWrites, "\x00|") {
-				t.Fatalf("VIOLATION C13: the writer received %d write(s) %q, the successful calls stand for %q\ncase: %s", len(got), got, wantWrites, desc)
+			rest := stream
+			used := make([]bool, len(wantWrites))
+			for len(rest) > 0 {
+				found := false
+				for i, v := range wantWrites {
+					if !used[i] && bytes.HasPrefix(rest, []byte(v)) {
+						used[i], found = true, true
+						rest = rest[len(v):]
+						break
+					}
+				}
+				if !found {
+					t.Fatalf("VIOLATION C13: the writer received %q (in %d Write calls), which is not the successful values %q each once and contiguous\ncase: %s", stream, len(w.writes), wantWrites, desc)
+				}
+			}
+			for i, v := range wantWrites {
+				if !used[i] {
+					t.Fatalf("VIOLATION C13: value %q was acknowledged but the writer received %q\ncase: %s", v, stream, desc)
+				}
 			}
 		}
 		// nil writer / nil event
@@ -613,15 +630,12 @@ func TestC13ChannelSink(t *testing.T) {
 		if elapsed > deadline+2*time.Second {
 			t.Fatalf("VIOLATION C13: ChannelSink blocked %v, longer than min(timeout, context) = %v\ncase: %s", elapsed, deadline, desc)
 		}
-		isCtxErr := errors.Is(perr, context.Canceled) || errors.Is(perr, context.DeadlineExceeded)
-		if perr != nil && !isCtxErr && elapsed < time.Duration(timeoutMs)*time.Millisecond-time.Millisecond {
-			// a context error is legitimate whenever the context is done (the cancel timer is armed before
-			// the call, so a descheduled test goroutine may find it done at once); a timeout error is not
-			// legitimate before the timeout elapsed
-			t.Fatalf("VIOLATION C13: ChannelSink gave up after %v with %q, before its timeout of %dms elapsed\ncase: %s", elapsed, perr, timeoutMs, desc)
-		}
-		if perr != nil && isCtxErr && ctx.Err() == nil {
-			t.Fatalf("VIOLATION C13: ChannelSink reported a context error although the context is not done\ncase: %s", desc)
+		isCtxErr := errors.Is(perr, context.Canceled) || errors.Is(perr, context.DeadlineExceeded) // evidence class only
+		if perr != nil && ctx.Err() == nil && elapsed < time.Duration(timeoutMs)*time.Millisecond-time.Millisecond {
+			// an error is legitimate once the timeout elapsed or the context is done, whatever the error value looks
+			// like (the cancel timer is armed before the call, so a descheduled test goroutine may find the context
+			// done at once: only a context that is still not done now certainly was not done then)
+			t.Fatalf("VIOLATION C13: ChannelSink gave up after %v with %q, before its timeout of %dms elapsed and although the context is not done\ncase: %s", elapsed, perr, timeoutMs, desc)
 		}
 		room := capn == 1 && !prefill
 		if perr != nil && cancelMs == -2 && deadlineMs == 0 && (room || (drainMs == 0 && timeoutMs == 10000)) {
